@@ -912,7 +912,9 @@ func computeBidiOrdering(dir di.Direction, finalLine Line) {
 			basePosition = len(finalLine) - 1 - idx
 		}
 		finalLine[idx].VisualIndex = int32(basePosition)
-		if run.Direction == dir {
+		// Only the progression matters here : vertical runs also carry orientation
+		// flags (upright/sideways), which usually differ from the ones of [dir].
+		if run.Direction.Progression() == dir.Progression() {
 			if bidiStart != -1 {
 				swapVisualOrder(finalLine[bidiStart:idx])
 				bidiStart = -1
